@@ -112,6 +112,10 @@ def harnesses(ctx):
                 must_have=['postcondition', 'invariant base', 'invariant step', 'G\\.'],
                 clause='createNode under interference (any number of concurrent creators/growers): unique own index, counters cover it on return, every intermediate '
                        'state visible to lock-free readers satisfies WINV (block stored before the counters cover it), lock released only in a quiescent state', funcs=[P + 'createNode']),
+        Harness('piggylist.ri_insertAt.conc', 'harness_ri_insertAt_conc', cpp=cpp, c=c, defines=d + ['VX_CONC', 'VX_RI'], enforce='h_ri_insertAt', unwind=None, object_bits=12,
+                must_have=['postcondition', 'G\\.'],
+                clause='RandomInsertPiggyList::insertAt under interference (double-checked block installation): a block pointer is written only while null and under the lock, '
+                       'never replaced; this thread\'s cell holds the value; exactly one element counted', funcs=[R + 'insertAt']),
         Harness('piggylist.winv', 'lemma_winv', c=c, defines=d, unwind=None, must_have=['lemma'], clause='INV_PL implies WINV; under WINV every covered index lives in an allocated block'),
         Harness('piggylist.append', 'harness_append', cpp=cpp, c=c, defines=d, enforce='h_pl_append', unwind=2, object_bits=12,
                 must_have=['postcondition', 'invariant base', 'invariant step'],
@@ -141,5 +145,6 @@ MUTANTS = [
     dict(name='createNode: counters updated before the block is stored', file=PL, find=r'(std::size_t createNode\(\) \{.*?)blockLookupTable\[num_containers\] = new T\[allocsize\];\s*num_containers \+= 1;\s*container_size \+= allocsize;', repl=r'\1num_containers += 1;\n                container_size += allocsize;\n                blockLookupTable[num_containers - 1] = new T[allocsize];', expect=r'piggylist\.createNode\.conc :: .*G\.order'),
     dict(name='createNode: grows without taking the lock', file=PL, find=r'(std::size_t createNode\(\) \{.*?)sl\.lock\(\);(.*?)sl\.unlock\(\);', repl=r'\1\2', expect=r'piggylist\.createNode\.conc'),
     # (replacing the `while` re-check by a single unconditional growth step only over-allocates: INV_PL still holds; a change that removes the loop is exit 2: the hook anchor is gone)
+    dict(name='RI insertAt: installs the block without re-checking under the lock', file=PL, find=r'(slock\.lock\(\);\s*)if \(blockLookupTable\[blockNum\]\.load\(\) == nullptr\) \{(\s*blockLookupTable\[blockNum\]\.store\(new T\[INITIALBLOCKSIZE << blockNum\]\);\s*)\}', repl=r'\1\2', expect=r'piggylist\.ri_insertAt\.conc :: .*G\.block'),
     dict(name='RI get: uses BLOCKBITS-1', file=PL, find=r'(inline T& get\(std::size_t index\) const \{\s*std::size_t nindex = index \+ INITIALBLOCKSIZE;.*?return this->getBlock\(blockNum - BLOCKBITS)\)', repl=r'\1 + 1)', expect=r'piggylist\.ri_get'),
 ]
